@@ -300,6 +300,13 @@ def or_form(prog: Program) -> RuleResult:
     return r
 
 
+def _hv_truth(prog):
+    # a solution / binding / argument whose value is falsy is a value like any other: bound values are asked for presence, not for truth
+    from .hvtruth import hv_truth
+
+    return hv_truth(prog)
+
+
 def run(prog: Program, tier: str) -> List[RuleResult]:
     _cache.clear()
     from .c01 import ep_neg
@@ -308,7 +315,7 @@ def run(prog: Program, tier: str) -> List[RuleResult]:
     from .c03 import domain_cache
 
     # the caching iterator behind every variable domain: a value lost from the cache is a solution lost from every later evaluation
-    from .c01 import ep_selected, cmp_apply
+    from .c01 import ep_selected, cmp_apply, ep_operand
     from .c12 import arg_symbolic
 
     # a row whose selected value is falsy is a solution like any other
@@ -316,4 +323,6 @@ def run(prog: Program, tier: str) -> List[RuleResult]:
             # predicates are atoms of the fragment: an argument expression wrapped as a literal changes which assignments satisfy the atom
             arg_symbolic(prog),
             # comparisons are the other atoms: the verdict is the operator applied to the operand values of this assignment
-            cmp_apply(prog)]
+            cmp_apply(prog),
+            # an operand flagged false is dropped by the comparator: the flag must come from this evaluation, in condition position only
+            ep_operand(prog), _hv_truth(prog)]
